@@ -503,3 +503,25 @@ PROPS = {
         },
     },
 }
+
+# What the generators gained after the rule texts above were written (waves
+# twelve to fifteen of the seeded changes, see DESIGN.md section 8).
+RULE_MORE = {
+    "C03": "devices with one of two passwords, password changes followed by requests with the old and the new one; IPv4 client addresses arriving in 16 octets and as UDP addresses; human-readable names that are not in normal form",
+    "C04": "referrals and alias chains that stop short (no SOA); answers whose scope is longer than the source prefix; the reserved EDNS flags of cached answers that keep their OPT record; a subnet-dependent name under a domain of the resolver's fixed list",
+    "C05": "answers whose scope is longer than the source prefix; a subnet-dependent name under a domain of the resolver's fixed list; geofile: pairs of clients of different countries whose addresses are close",
+    "C06": "probes and part of the history over DoH GET with line breaks in the parameter; a length prefix arriving in two pieces with another connection's message in between; fwdsim: negative answers that arrive twice, runs in which every query has ID 0, upstreams limited to one transport, upstreams that close a stream after one reply",
+    "C07": "the filter stub hands later requesters of a rewrite a copy of the first one's rewritten query with an ID of its own; every response ID is compared with its request's; fltsim part: two requesters as devices of one profile with a custom rule for one of them",
+    "C09": "responses whose bulk is in the authority or additional section",
+    "C10": "networks written with an address inside them; CHAOS-class questions for names access rules know; IPv4 client addresses arriving in 16 octets",
+    "C11": "lists with a line over 64 KiB after a good list",
+    "C12": "requesters differing in CD, OPT and DO; two requesters as devices of one profile with a $client rule; versions of lists without any rule and a name every safe-search version rewrites; a rule switched off by a $badfilter rule of another list",
+    "C13": "bodies of white space only for the JSON indexes; null among the index records",
+    "C14": "all 32 combinations of access settings, networks written with an address inside them; looked-up profiles are asked about a request before they are stored again",
+    "C15": "upstream answers REFUSED, BADVERS and BADCOOKIE",
+    "C16": "gRPC part: calls the backend ends with OK and without a response message; a batch the backend accepted in full must not be reported as failed",
+    "C17": "upstreams limited to one transport, upstreams that close a stream after one reply, negative answers that arrive twice, runs in which every query has ID 0",
+    "C18": "pipeline part: a quick query on a connection of its own beside a busy one; a connection that goes away with its queries in flight before the burst",
+}
+for _pid, _more in RULE_MORE.items():
+    PROPS[_pid]["rule"] += "; also: " + _more
